@@ -118,27 +118,47 @@ def check_level(ctx, child, rng, where):
                         d = {"contour": i}
                         break
             else:
+                first = None
                 if type(cobj).__name__ == "ChildScalar":
                     # the first access after a refresh is what fills the member's cache: let it
                     # be one of the read-only forms a client uses (conversions to another
-                    # dtype, single events, reductions) before the plain read below
-                    form = int(rng.integers(0, 6))
+                    # dtype, single events, reductions) before the plain read below; what it
+                    # returned is judged as well
+                    form = int(rng.integers(0, 7))
                     with np.errstate(all="ignore"), warnings.catch_warnings():
                         warnings.simplefilter("ignore")
                         if form == 0:
-                            np.asarray(cobj, dtype=np.float32)
+                            first = ("float32", np.asarray(cobj, dtype=np.float32))
                         elif form == 1:
                             np.array(cobj, dtype=np.int32)
                         elif form == 2:
-                            np.asarray(cobj, dtype=np.float16)
+                            first = ("float16", np.asarray(cobj, dtype=np.float16))
                         elif form == 3:
-                            cobj[int(rng.integers(0, n))]
+                            i0 = int(rng.integers(0, n))
+                            first = ("single", i0, cobj[i0])
                         elif form == 4:
-                            np.nanmax(cobj)
+                            first = ("nanmax", np.nanmax(cobj))
+                        elif form == 5:
+                            i0 = -int(rng.integers(1, n + 1))
+                            first = ("single", i0, cobj[i0])
                     ctx.count(f"first_access_form[{form}]")
                 pe = np.asarray(pobj[:])[sel]
                 g = np.asarray(cobj[:])
-                if not dscmp.arr_equal(g, pe):
+                if first is not None:
+                    with np.errstate(all="ignore"), warnings.catch_warnings():
+                        warnings.simplefilter("ignore")
+                        if first[0] in ("float32", "float16"):
+                            okf = dscmp.arr_equal(first[1], pe.astype(first[1].dtype))
+                        elif first[0] == "single":
+                            okf = dscmp.arr_equal(np.asarray(first[2]), pe[first[1]])
+                        else:
+                            okf = dscmp.arr_equal(np.asarray(first[1]), np.asarray(np.nanmax(pe)))
+                    if not okf:
+                        d = {"access": f"first access after the refresh: {first[0]}"
+                                       + (f" [{first[1]}]" if first[0] == "single" else "")}
+                if d is not None:
+                    pass
+                elif not dscmp.arr_equal(g, pe):
                     d = {"access": "[:]", "diff": dscmp.first_diff(g, pe)}
                 else:
                     i = int(rng.integers(0, n))
